@@ -72,11 +72,54 @@ func runC18_1(c *core.Ctx) {
 	if f == nil || !c.Need("ErrAcceptSocket", acc) || !c.Need("ErrEngineShutdown", shut) {
 		return
 	}
+	// facts per error-typed local variable (three bits each): the variable holds a value established to be a
+	// sentinel / was last assigned by the wait syscall / that and tested non-nil. A copy `a = b` between
+	// error variables carries b's facts over to a; any other assignment clears them.
 	const (
 		fSentinel = 1 << iota
 		fSrcWait  // err was last assigned by the wait syscall
 		fWaitErr
 	)
+	slot := map[types.Object]uint{}
+	ast.Inspect(f.Decl.Body, func(n ast.Node) bool {
+		if id, ok := n.(*ast.Ident); ok {
+			if o, ok := f.Info.Defs[id].(*types.Var); ok && o != nil && isErrorType(o.Type()) {
+				if _, seen := slot[o]; !seen {
+					slot[o] = uint(len(slot))
+				}
+			}
+		}
+		return true
+	})
+	if rl := f.Decl.Type.Results; rl != nil {
+		for _, fld := range rl.List {
+			for _, nm := range fld.Names {
+				if o := f.Info.Defs[nm]; o != nil && isErrorType(o.Type()) {
+					if _, seen := slot[o]; !seen {
+						slot[o] = uint(len(slot))
+					}
+				}
+			}
+		}
+	}
+	if len(slot) > 20 {
+		c.Undecided(f.Name, "error variables", f.Decl.Pos(), "more error-typed locals than the rule tracks")
+		return
+	}
+	get := func(in uint64, o types.Object) uint64 {
+		k, ok := slot[o]
+		if !ok {
+			return 0
+		}
+		return (in >> (3 * k)) & 7
+	}
+	set := func(in uint64, o types.Object, v uint64) uint64 {
+		k, ok := slot[o]
+		if !ok {
+			return in
+		}
+		return in&^(7<<(3*k)) | v<<(3*k)
+	}
 	p := &flow.Problem{Must: true}
 	p.Node = func(b *flow.Block, i int, n ast.Node, in uint64) uint64 {
 		flow.Events(n, func(x ast.Node) {
@@ -90,12 +133,23 @@ func runC18_1(c *core.Ctx) {
 					isWait = true
 				}
 			}
-			for _, l := range as.Lhs {
-				if o := flow.ObjOf(f.Info, l); o != nil && isErrorType(o.Type()) {
-					in &^= fSentinel | fWaitErr | fSrcWait
-					if isWait {
-						in |= fSrcWait
+			vals := make([]uint64, len(as.Lhs))
+			for k := range as.Lhs {
+				if isWait {
+					vals[k] = fSrcWait
+				} else if len(as.Rhs) == len(as.Lhs) {
+					if src := flow.ObjOf(f.Info, as.Rhs[k]); src != nil {
+						if _, tracked := slot[src]; tracked {
+							vals[k] = get(in, src) // a copy keeps what is known of the source
+						} else if src == acc || src == shut {
+							vals[k] = fSentinel
+						}
 					}
+				}
+			}
+			for k, l := range as.Lhs {
+				if o := flow.ObjOf(f.Info, l); o != nil && isErrorType(o.Type()) {
+					in = set(in, o, vals[k])
 				}
 			}
 		})
@@ -106,16 +160,40 @@ func runC18_1(c *core.Ctx) {
 			return in
 		}
 		if o := isErrorsIs(f, e.Cond); o != nil && (o == acc || o == shut) && e.Sense {
-			in |= fSentinel
+			if call, ok := ast.Unparen(e.Cond).(*ast.CallExpr); ok && len(call.Args) == 2 {
+				if v := flow.ObjOf(f.Info, call.Args[0]); v != nil {
+					in = set(in, v, get(in, v)|fSentinel)
+				}
+			}
 		}
-		if x, y, op, ok := flow.Cmp(e.Cond); ok && flow.IsNil(f.Info, y) && isErrorType(f.Info.TypeOf(x)) && (op == token.NEQ) == e.Sense && in&fSrcWait != 0 {
-			in |= fWaitErr
+		if x, y, op, ok := flow.Cmp(e.Cond); ok && flow.IsNil(f.Info, y) && isErrorType(f.Info.TypeOf(x)) && (op == token.NEQ) == e.Sense {
+			if v := flow.ObjOf(f.Info, x); v != nil && get(in, v)&fSrcWait != 0 {
+				in = set(in, v, get(in, v)|fWaitErr)
+			}
 		}
 		return in
 	}
 	sol := f.Graph().Solve(p)
 	sol.AtExit(func(b *flow.Block, facts uint64) {
-		c.Check(facts&(fSentinel|fWaitErr) != 0, f.Name, "return from the poll loop", b.Return.Pos(), "loop exits only on a sentinel or a failing wait",
+		good := false
+		if r := b.Return; r != nil {
+			var res ast.Expr
+			if len(r.Results) == 1 {
+				res = r.Results[0]
+			} else if len(r.Results) == 0 && f.Decl.Type.Results != nil && len(f.Decl.Type.Results.List) == 1 && len(f.Decl.Type.Results.List[0].Names) == 1 {
+				res = f.Decl.Type.Results.List[0].Names[0]
+			}
+			if res != nil {
+				o := flow.ObjOf(f.Info, res)
+				if o == nil {
+					if id, ok := ast.Unparen(res).(*ast.Ident); ok {
+						o = f.Info.Defs[id]
+					}
+				}
+				good = o != nil && (o == acc || o == shut || get(facts, o)&(fSentinel|fWaitErr) != 0)
+			}
+		}
+		c.Check(good, f.Name, "return from the poll loop", b.Return.Pos(), "loop exits only on a sentinel or a failing wait",
 			"Polling can return on an ordinary callback/task error: a failure on one connection (or a failing task) would stop the whole event loop and all its connections")
 	})
 }
